@@ -892,6 +892,7 @@ class BisectionZD(Bisection1D):
         if self.selection_key_outer > 0:
             self.selection_key_outer -= 1
         self.calculated_heights = {}
+        self.selected_keys_nested = {}
 
         self.selection_key, self.selected_coordinates = self.search_successive()
 
@@ -912,6 +913,7 @@ class BisectionZD(Bisection1D):
             except ValueError:
                 break
             self.calculated_temperatures_nested[i] = self.calculated_temperatures
+            self.selected_keys_nested[i] = selection_key
 
             self.ghe.compute_g_functions()
             self.ghe.size(method=TimestepType.HYBRID)
@@ -935,14 +937,10 @@ class BisectionZD(Bisection1D):
         selection_key_outer = keys[idx]
         self.calculated_temperatures = self.calculated_temperatures_nested[selection_key_outer]
 
-        keys = list(self.calculated_temperatures.keys())
-        values = list(self.calculated_temperatures.values())
-
-        negative_excess_values = [v for v in values if v <= 0.0]
-
-        excess_of_interest = max(negative_excess_values)
-        idx = values.index(excess_of_interest)
-        selection_key = keys[idx]
+        # the field the search of that list selected: the smallest evaluated field that meets the
+        # limits, or the continue_if_design_unmet fallback (re-deriving it as "largest non-positive
+        # excess" picked larger fields for non-monotone excess and raised on the fallback)
+        selection_key = self.selected_keys_nested[selection_key_outer]
         selected_coordinates = self.coordinates_domain_nested[selection_key_outer][selection_key]
 
         self.initialize_ghe(
